@@ -28,9 +28,13 @@ func main() {
 // verifDebugSession runs the program with line breakpoints; at every stop the next request of reqs is
 // issued (0 = Continue, also once reqs is used up).
 func verifDebugSession(bpLines []int, reqs []DebugEventReason) (breaks []int, out string, terminated bool, err error) {
+	return verifDebugSessionSrc(verifDebugSrc, bpLines, reqs)
+}
+
+func verifDebugSessionSrc(src string, bpLines []int, reqs []DebugEventReason) (breaks []int, out string, terminated bool, err error) {
 	var stdout, stderr bytes.Buffer
 	i := New(Options{Stdout: &stdout, Stderr: &stderr})
-	prog, err := i.Compile(verifDebugSrc)
+	prog, err := i.Compile(src)
 	if err != nil {
 		return nil, "", false, err
 	}
@@ -117,4 +121,41 @@ func init() {
 		verifScenario{"C19/interp.Debugger.exec/post:breakpoint-reported", session([]int{9, 4}, []DebugEventReason{DebugStepOver, DebugStepOver, DebugStepOver, DebugStepOver}, []int{9, 4, 4})},
 		verifScenario{"C19/interp.Debugger.exec/post:free-run-stops-only-at-breakpoints", session([]int{9, 4}, nil, []int{9, 4, 4})},
 	)
+}
+
+const verifDebugBranchSrc = `package main
+
+func grade(score int) string {
+	g := ""
+	if score >= 50 {
+		g = "pass"
+	} else {
+		g = "fail"
+	}
+	return g
+}
+
+func main() {
+	println(grade(70), grade(20))
+}
+`
+
+func init() {
+	verifProtocolScenarios = append(verifProtocolScenarios, verifScenario{"C19/interp.runCfg/loop-step:loop2.tracked-node*", func() (bool, string) {
+		got, out, term, err := verifDebugSessionSrc(verifDebugBranchSrc, []int{6, 8}, nil)
+		want := []int{6, 8}
+		bad := err != nil || !term || fmt.Sprint(got) != fmt.Sprint(want) || out != "pass fail\n"
+		return bad, fmt.Sprintf("breakpoints on the then-line 6 and the else-line 8, grade(70) then grade(20): DebugBreak events at lines %v (want %v), output %q, terminated %v, err %v", got, want, out, term, err)
+	}})
+}
+
+func init() {
+	// the true edge of a branch whose successors are indistinguishable closures is tracked correctly
+	verifProtocolScenarios = append(verifProtocolScenarios, verifScenario{"C19/interp.runCfg/loop-step:loop2.true-successor*", func() (bool, string) {
+		src := "package main\n\nfunc grade(score int) string {\n\tg := \"\"\n\tif score >= 50 {\n\t\tg = \"pass\"\n\t} else {\n\t\tg = \"fail\"\n\t}\n\treturn g\n}\n\nfunc main() {\n\tprintln(grade(70), grade(90))\n}\n"
+		got, out, term, err := verifDebugSessionSrc(src, []int{6, 8}, nil)
+		want := []int{6, 6}
+		bad := err != nil || !term || fmt.Sprint(got) != fmt.Sprint(want) || out != "pass pass\n"
+		return bad, fmt.Sprintf("breakpoints on the then-line 6 and the else-line 8, grade(70) then grade(90): DebugBreak events at lines %v (want %v), output %q, terminated %v, err %v", got, want, out, term, err)
+	}})
 }
